@@ -50,6 +50,8 @@
      C09_attributes_render    attributes (render_attrs l ++ ws) = the attributes as written, with exact ranges
      C09_attribute_ranges_text   get_attributes over a tag lying anywhere in a source = those tokens, shifted
      C09_attribute_tokens_slice  every such token slices the source exactly to the name and to the value as written
+     C09_attributes_doc / C09_match_text_attrs   the attribute tokens match() returns on the text are the attributes
+                              of the matched element's tag as written in the document, at their exact ranges
    Outside the grammar (covered by correspondence + ground-truth oracle only):
    backslash escapes inside quoted values, white space around `=` or inside close tags, unbalanced quotes in PIs.
    What is proved about the scanner for ALL strings is in props/C16Html.v. *)
@@ -199,6 +201,29 @@ Theorem C09_attribute_tokens_slice :
     Forall (token_slices (pre ++ render_attrs l ++ post)) (attr_tokens (N.of_nat (length pre)) l).
 Proof. exact attr_tokens_slice. Qed.
 Print Assumptions C09_attribute_tokens_slice.
+
+(* [tags_of d]: every open tag of the document with its offset and its attribute list as written.
+   get_attributes over the text of the document at the range of any of its tags yields exactly those attributes *)
+Theorem C09_attributes_doc :
+  forall (special : list (str * option (list str))) (d : list item) (t : tagrec),
+    forallb (item_ok special) d = true -> In t (tags_of d) ->
+    get_attributes (render d) (tr_start t) (tr_end t) (tr_name t) =
+    attr_tokens (tr_start t + N.of_nat (S (length (tr_name t))))%N (tr_attrs t).
+Proof. exact get_attributes_doc. Qed.
+Print Assumptions C09_attributes_doc.
+
+(* end to end, with attributes: whatever match() returns on the text is the innermost element of the record, its
+   open range is the range of one of the document's tags, and its attribute tokens are that tag's attributes as
+   written -- names and values at their exact ranges (C09_attribute_tokens_slice: they slice the text exactly) *)
+Theorem C09_match_text_attrs :
+  forall (o : opts) (d : list item) (pos : Z) (m : matched),
+    doc_ok o d = true -> html_match o (render d) pos = Ok (Some m) ->
+    exists b t, innermost (forest_of d) pos = Some b /\ In t (tags_of d) /\
+      m_name m = b_name b /\ m_open m = b_open b /\ m_close m = b_close b /\
+      b_name b = tr_name t /\ b_open b = (tr_start t, tr_end t) /\
+      m_attrs m = attr_tokens (tr_start t + N.of_nat (S (length (tr_name t))))%N (tr_attrs t).
+Proof. exact match_text_attrs. Qed.
+Print Assumptions C09_match_text_attrs.
 
 (* the body condition of comments / CDATA / raw elements, as a statement about occurrences *)
 Theorem C09_ends_first_spec :
